@@ -255,9 +255,10 @@ type bpEval struct {
 	visited     map[*ssa.BasicBlock]bool
 	load        func(ld *ssa.UnOp, fr *bpFrame) (pval, bool)
 	invoke      func(call *ssa.Call, fr *bpFrame) (pval, bool)
-	hasLaneLoop bool
+	laneHeaders map[*ssa.BasicBlock]bool // headers of the loops whose index is used as a lane
 	stopped     bool
 	captured    pval // what the hook captured when it stopped the walk
+	joinAt      *ssa.BasicBlock // a side of an if-converted branch stops here
 }
 
 func (e *bpEval) fail(format string, a ...interface{}) pval {
@@ -497,7 +498,10 @@ func (e *bpEval) exec(b, pred *ssa.BasicBlock, fr *bpFrame) pval {
 		if e.steps > 20000 {
 			return e.fail("step limit")
 		}
-		if e.root != nil && fr.fn == e.root && e.hasLaneLoop {
+		if e.joinAt != nil && b == e.joinAt {
+			return pval{kind: pTuple}
+		}
+		if e.root != nil && fr.fn == e.root && e.laneHeaders[b] {
 			if e.visited[b] {
 				return pval{kind: pTuple} // the second iteration of the lane loop would start
 			}
@@ -618,6 +622,23 @@ func (e *bpEval) exec(b, pred *ssa.BasicBlock, fr *bpFrame) pval {
 					v := sub.get(a, fr)
 					args = append(args, v)
 				}
+				if cal.Pkg != nil && cal.Pkg.Pkg.Path() == "math/bits" && strings.HasPrefix(cal.Name(), "Reverse") && !strings.HasPrefix(cal.Name(), "ReverseBytes") && len(args) == 1 && args[0].kind == pVec {
+					if w, _, ok := typeWidth(t.Type()); ok {
+						r := pval{kind: pVec, w: w}
+						for i := 0; i < 64; i++ {
+							if i < w {
+								r.bits[i] = args[0].bits[w-1-i]
+								if r.bits[i].k == 0 {
+									r.bits[i] = pbit{k: '0'}
+								}
+							} else {
+								r.bits[i] = pbit{k: '0'}
+							}
+						}
+						fr.vals[t] = r
+					}
+					break
+				}
 				if cal.Pkg != nil && cal.Pkg.Pkg.Path() == "math/bits" {
 					if v, ok := args[0].constVal(); ok {
 						switch cal.Name() {
@@ -698,6 +719,51 @@ func (e *bpEval) exec(b, pred *ssa.BasicBlock, fr *bpFrame) pval {
 				case '0':
 					pred, b = b, b.Succs[1]
 				case 's':
+					// a triangle or diamond that only computes values is converted into selects at
+					// its join: the walk does not fork (a loop over the bits of a word would fork
+					// once per bit)
+					if join, tBlk, fBlk := ifShape(b); join != nil && pureBlock(tBlk) && pureBlock(fBlk) {
+						f1 := &bpFrame{fn: fr.fn, vals: map[ssa.Value]pval{}}
+						f2 := &bpFrame{fn: fr.fn, vals: map[ssa.Value]pval{}}
+						for k, v := range fr.vals {
+							f1.vals[k] = v
+							f2.vals[k] = v
+						}
+						old := e.joinAt
+						e.joinAt = join
+						if tBlk != nil {
+							e.exec(tBlk, b, f1)
+						}
+						if fBlk != nil {
+							e.exec(fBlk, b, f2)
+						}
+						e.joinAt = old
+						tPred, fPred := b, b
+						if tBlk != nil {
+							tPred = tBlk
+						}
+						if fBlk != nil {
+							fPred = fBlk
+						}
+						for _, in := range join.Instrs {
+							phi, ok := in.(*ssa.Phi)
+							if !ok {
+								break
+							}
+							var vt, vf pval
+							for i, p := range join.Preds {
+								if p == tPred {
+									vt = e.get(phi.Edges[i], f1)
+								}
+								if p == fPred {
+									vf = e.get(phi.Edges[i], f2)
+								}
+							}
+							fr.vals[phi] = joinIte(c.bits[0], vt, vf)
+						}
+						pred, b = nil, join
+						goto next
+					}
 					f1 := &bpFrame{fn: fr.fn, vals: map[ssa.Value]pval{}}
 					f2 := &bpFrame{fn: fr.fn, vals: map[ssa.Value]pval{}}
 					for k, v := range fr.vals {
@@ -751,4 +817,42 @@ func (e *bpEval) exec(b, pred *ssa.BasicBlock, fr *bpFrame) pval {
 		return e.fail("block without terminator")
 	next:
 	}
+}
+
+// ifShape recognises `if c { T }` and `if c { T } else { F }` whose sides fall through to one
+// join block: it returns the join and the side blocks (nil for an empty side).
+func ifShape(b *ssa.BasicBlock) (join, tBlk, fBlk *ssa.BasicBlock) {
+	if len(b.Succs) != 2 {
+		return nil, nil, nil
+	}
+	t, f := b.Succs[0], b.Succs[1]
+	single := func(x *ssa.BasicBlock) bool { return len(x.Preds) == 1 && len(x.Succs) == 1 }
+	switch {
+	case single(t) && t.Succs[0] == f && t != f:
+		return f, t, nil
+	case single(f) && f.Succs[0] == t && t != f:
+		return t, nil, f
+	case single(t) && single(f) && t.Succs[0] == f.Succs[0] && t != f:
+		return t.Succs[0], t, f
+	}
+	return nil, nil, nil
+}
+
+// pureBlock: the block only computes values (no calls through the state, no stores).
+func pureBlock(b *ssa.BasicBlock) bool {
+	if b == nil {
+		return true
+	}
+	for _, in := range b.Instrs {
+		switch x := in.(type) {
+		case *ssa.BinOp, *ssa.UnOp, *ssa.Convert, *ssa.ChangeType, *ssa.Phi, *ssa.Jump, *ssa.DebugRef, *ssa.Extract:
+		case *ssa.Call:
+			if x.Call.IsInvoke() {
+				return false
+			}
+		default:
+			return false
+		}
+	}
+	return true
 }
